@@ -1,5 +1,6 @@
 mod adapter;
 mod replay;
+mod tables;
 mod units;
 
 use serde_json::{json, Value};
@@ -193,10 +194,155 @@ fn cmd_replay(args: &[String]) -> i32 {
     0
 }
 
+/// `tables --what ctor|dataitem --in FILE --out FILE`: replay of Ctor.tla / DataItem.tla cases
+fn cmd_tables(args: &[String]) -> i32 {
+    let what = arg(args, "--what").expect("--what");
+    let input = arg(args, "--in").expect("--in");
+    let out_path = arg(args, "--out").expect("--out");
+    std::panic::set_hook(Box::new(|_| {}));
+    let f = std::fs::File::open(&input).unwrap_or_else(|e| {
+        eprintln!("cannot open {}: {}", input, e);
+        std::process::exit(2)
+    });
+    let mut out = tables::Out::new();
+    for (n, line) in BufReader::new(f).lines().enumerate() {
+        let line = line.unwrap();
+        let no = n as u64 + 1;
+        if let Some(p) = tlc_payload(&line, "REPLAY") {
+            let v: Value = serde_json::from_str(&p).unwrap_or_else(|e| {
+                eprintln!("bad line {}: {}", no, e);
+                std::process::exit(2)
+            });
+            if what == "ctor" {
+                tables::ctor_case(&mut out, no, &v);
+            } else {
+                tables::dataitem_case(&mut out, no, &v);
+            }
+        } else if let Some(p) = tlc_payload(&line, "DEFAULTS") {
+            let v: Value = serde_json::from_str(&p).unwrap();
+            tables::default_cases(&mut out, no, &v);
+        }
+    }
+    let res = json!({
+        "prop": if what == "ctor" { "C11" } else { "C16" }, "lines": out.cases, "units": 1,
+        "stats": {"behaviours": out.cases, "steps": out.checks, "ops": out.checks, "cases_by_expected_result": out.by_result},
+        "distinct": out.distinct.len(), "violations_total": out.vio_total, "violations": out.violations, "samples": out.samples
+    });
+    std::fs::write(&out_path, serde_json::to_string(&res).unwrap()).unwrap();
+    0
+}
+
+/// `streams --sched FILE --in TLC_OUT --out FILE --tier T --seed N`: a schedule (pattern x repetitions segments) is
+/// expanded into up to 2*10^6 real calls per price unit; at the steps sampled by the specification (Streams.tla)
+/// the output is compared with TLC's exact expectation for the window at that step.
+fn cmd_streams(args: &[String]) -> i32 {
+    let sched_path = arg(args, "--sched").expect("--sched");
+    let input = arg(args, "--in").expect("--in");
+    let out_path = arg(args, "--out").expect("--out");
+    let tier = arg(args, "--tier").unwrap_or("quick".into());
+    let seed: u64 = arg(args, "--seed").and_then(|s| s.parse().ok()).unwrap_or(0);
+    let sj: Value = serde_json::from_str(&std::fs::read_to_string(&sched_path).expect("sched")).expect("sched json");
+    let prop = sj["prop"].as_str().unwrap_or("C13").to_string();
+    let mut expects: std::collections::HashMap<u64, Value> = std::collections::HashMap::new();
+    let f = std::fs::File::open(&input).expect("tlc out");
+    for line in BufReader::new(f).lines() {
+        let line = line.unwrap();
+        if let Some(p) = tlc_payload(&line, "EXPECT") {
+            let v: Value = serde_json::from_str(&p).expect("EXPECT json");
+            expects.insert(v["t"].as_u64().unwrap(), v);
+        }
+    }
+    let mut units = units::unit_list(&tier, seed);
+    if let Some(u) = arg(args, "--unit") {
+        let v: Value = serde_json::from_str(&u).expect("--unit json");
+        units = vec![units::Unit { a: v["a"].as_f64().unwrap(), b: v["b"].as_f64().unwrap(), av: v["av"].as_f64().unwrap(), big: v["big"].as_f64().unwrap() }];
+    }
+    let max_units: usize = arg(args, "--max-units").and_then(|s| s.parse().ok()).unwrap_or(1000);
+    units.truncate(max_units);
+    let newop = json!({"op": "new", "i": 1, "kind": sj["kind"], "per": sj["per"], "m": sj["m"], "seed": sj["seed"], "mem": sj["mem"]});
+    let head = json!({"ops": [newop], "obs": [{"t": 0}]});
+    std::panic::set_hook(Box::new(|_| {}));
+    let expects = std::sync::Arc::new(expects);
+    let sj = std::sync::Arc::new(sj);
+    let head = std::sync::Arc::new(head);
+    let mut handles = vec![];
+    for u in units.iter() {
+        let uu = match replay::unit_ok(&head, u) {
+            Some(x) => x,
+            None => continue,
+        };
+        let (expects, sj, head, prop) = (expects.clone(), sj.clone(), head.clone(), prop.clone());
+        handles.push(std::thread::spawn(move || {
+            let mut ctx = replay::Ctx::new(&prop);
+            let mut run = replay::Run::new(&uu, 0);
+            run.exec(&mut ctx, &head);
+            let mut t: u64 = 0;
+            for seg in sj["sched"].as_array().unwrap() {
+                let pat: Vec<Value> = seg["pat"].as_array().unwrap().iter().map(|o| {
+                    let mut o = o.clone();
+                    o["i"] = json!(1);
+                    o
+                }).collect();
+                let reps = seg["reps"].as_u64().unwrap();
+                for _ in 0..reps {
+                    for op in pat.iter() {
+                        t += 1;
+                        let ob = expects.get(&t);
+                        if let Some(o) = ob {
+                            // the harness's expansion of the schedule must agree with the specification's StreamAt
+                            let i = &o["in"];
+                            let same = if op["op"] == "s" { i["x"] == op["x"] } else { ["o", "h", "l", "c", "v"].iter().all(|k| i[*k] == op[*k]) };
+                            if !same {
+                                eprintln!("schedule expansion disagrees with StreamAt at t={}: {} vs {}", t, op, i);
+                                std::process::exit(2);
+                            }
+                        }
+                        run.feed(&mut ctx, t as usize, op, ob);
+                    }
+                }
+            }
+            (ctx, t)
+        }));
+    }
+    let mut stats = replay::Stats::default();
+    let mut violations: Vec<Value> = vec![];
+    let mut vio_total = 0u64;
+    let mut total = 0;
+    for h in handles {
+        let (c, t) = h.join().expect("worker");
+        total = t;
+        let a = &c.stats;
+        stats.behaviours += 1;
+        stats.steps += a.steps;
+        stats.ops += a.steps;
+        stats.fields_compared += a.fields_compared;
+        stats.skipped_ill += a.skipped_ill;
+        stats.skipped_undef += a.skipped_undef;
+        stats.skipped_ovf += a.skipped_ovf;
+        stats.skipped_tie += a.skipped_tie;
+        stats.panics += a.panics;
+        stats.max_rel_err = stats.max_rel_err.max(a.max_rel_err);
+        vio_total += c.vio_total;
+        violations.extend(c.violations);
+    }
+    let mut sample_ts: Vec<u64> = expects.keys().cloned().collect();
+    sample_ts.sort();
+    let res = json!({
+        "prop": prop, "tier": tier, "seed": seed, "lines": 1, "units": units.len(),
+        "stats": replay::stats_json(&stats), "distinct": expects.len(), "stream_length": total,
+        "violations_total": vio_total, "violations": violations,
+        "samples": [{"kind": sj["kind"], "per": sj["per"], "sched": sj["sched"].as_array().unwrap().iter().map(|g| json!({"pat_len": g["pat"].as_array().unwrap().len(), "pat_head": g["pat"].as_array().unwrap().iter().take(6).collect::<Vec<_>>(), "reps": g["reps"]})).collect::<Vec<_>>(), "sampled_steps": sample_ts}]
+    });
+    std::fs::write(&out_path, serde_json::to_string(&res).unwrap()).unwrap();
+    0
+}
+
 fn main() {
     let args: Vec<String> = std::env::args().collect();
     let code = match args.get(1).map(|s| s.as_str()) {
         Some("replay") => cmd_replay(&args[2..]),
+        Some("tables") => cmd_tables(&args[2..]),
+        Some("streams") => cmd_streams(&args[2..]),
         _ => {
             eprintln!("usage: taverif replay --prop Cxx --tier quick|thorough --seed N --in FILE --out FILE");
             2
